@@ -107,9 +107,6 @@ def main():
     validateargs(args, log)
     processor = EYAMLProcessor(log, None, binary=args.eyaml)
 
-    # Prep the YAML parser
-    yaml = Parsers.get_yaml_editor()
-
     # Process the input file(s)
     in_file_count = len(args.yaml_files)
     exit_state = 0
@@ -129,7 +126,9 @@ def main():
         if in_file_count > 1:
             log.info("Processing {}...".format(yaml_file))
 
-        # Try to open the file
+        # Try to open the file; each gets its own parser lest the state one
+        # document leaves behind (a %YAML directive) be applied to the next
+        yaml = Parsers.get_yaml_editor()
         (yaml_data, doc_loaded) = Parsers.get_yaml_data(yaml, log, yaml_file)
         if not doc_loaded:
             # An error message has already been logged
